@@ -565,7 +565,7 @@ func Check() *core.Check {
 		Families: func(tier string) []*core.Family {
 			bound := 2
 			if tier == "thorough" {
-				bound = 4
+				bound = 5
 			}
 			docs := allDocs()
 			strad := straddleDocs()
